@@ -821,3 +821,163 @@ def weird_net(rng, idx=0):
         b.net.ops.append(Op("RELU", [x], [out]))
         b.net.desc.append("fallback-relu")
     return b.finish([out])
+
+
+# ------------------------------------------------------------------------------------------------
+# Structured topologies that make specific mechanisms fire (multi-input graphs, residual blocks,
+# LUT reuse, deep weight slicing, single-channel FC after buffered convs, bias-less convs, ...)
+
+PATTERNS = ["multi_input", "input_npu_and_cpu", "residual", "lut_reuse", "deep_slices", "fc1_after_conv", "nobias",
+            "casc_s2_valid", "two_npu_islands", "concat_slices", "shared_weights", "big_fm_u65", "avgpool_chain", "minmax_lrelu"]
+
+
+def pattern_net(rng, idx=0, pattern=None):
+    pattern = pattern or rng.choice(PATTERNS)
+    dtype = rng.choice(["int8", "int8", "uint8"])
+    b = B(rng, f"pat{idx}_{pattern}", dtype)
+    b.net.desc.append(f"pattern={pattern} dtype={dtype}")
+    if pattern == "multi_input":
+        shp = [1, rng.randint(4, 16), rng.randint(4, 16), rng.choice([4, 8, 16])]
+        x1, x2 = b.input(shp), b.input(shp)
+        x3 = b.input(shp) if rng.random() < 0.5 else None
+        a = b.conv(x1, shp[3], (3, 3), (1, 1), (1, 1), "SAME")
+        c = b.cpu_op(a, rng.choice(["custom", "sin_like", "float_detour"]))
+        d = b.binary(rng.choice(["ADD", "MUL", "SUB"]), c, x2)
+        if x3 is not None:
+            d = b.cpu_op(d, "custom")
+            d = b.binary("ADD", d, x3)
+        return b.finish([d])
+    if pattern == "input_npu_and_cpu":
+        shp = [1, rng.randint(2, 16), rng.randint(2, 16), rng.choice([4, 8, 16])]
+        x = b.input(shp)
+        src = x if rng.random() < 0.5 else b.cpu_op(x, "custom")        # graph input or CPU-produced tensor
+        k = rng.choice(["abs", "addc", "mulc", "relu", "lrelu"])
+        if k == "abs":
+            a = b.unary("ABS", src)
+        elif k == "relu":
+            a = b.unary("RELU", src)
+        elif k == "lrelu":
+            a = b.unary("LEAKY_RELU", src)
+        else:
+            lo, hi = _qrange(dtype)
+            c2 = b.const([1, 1, 1, shp[3]], dtype, [rng.randint(lo, hi) for _ in range(shp[3])], [rand_scale(rng)], [rand_zp(rng, dtype)])
+            a = b.binary("ADD" if k == "addc" else "MUL", src, c2)
+        c = b.cpu_op(a, rng.choice(["custom", "sin_like"]))
+        d = b.binary(rng.choice(["ADD", "SUB", "MUL"]), c, src)
+        return b.finish([d] + ([a] if rng.random() < 0.2 else []))
+    if pattern == "residual":
+        c = rng.choice([8, 16, 32, 64])
+        shp = [1, rng.choice([8, 16, 24, 32, 48]), rng.choice([8, 16, 24, 32]), c]
+        x = b.input(shp)
+        cur = x
+        for _ in range(rng.randint(1, 3)):
+            skip = cur
+            y = cur
+            for _ in range(rng.randint(2, 3)):
+                y = b.conv(y, c, rng.choice([(1, 1), (3, 3)]), (1, 1), (1, 1), "SAME", act=rng.choice([0, 1]))
+            cur = b.binary("ADD", y, skip, act=rng.choice([0, 1]))
+        return b.finish([cur])
+    if pattern == "lut_reuse":
+        shp = [1, rng.randint(1, 8), rng.randint(1, 8), rng.choice([4, 8, 16])]
+        x = b.input(shp, scale=1.0 / 16, zp=0 if dtype == "int8" else 128)
+        cur = x
+        kinds = [rng.choice(["TANH", "LOGISTIC", "LEAKY_RELU"]) for _ in range(2)]
+        seq = [kinds[i % 2] for i in range(rng.randint(3, 6))]
+        if rng.random() < 0.3:
+            rng.shuffle(seq)
+        for k in seq:
+            # identical quantisation in and out so that equal operators build equal tables
+            if k == "LEAKY_RELU":
+                o = b.fm(shp, dtype, scale=1.0 / 16, zp=b.t(x).zps[0])
+                b.net.ops.append(Op(k, [cur], [o], ("LeakyReluOptions", dict(Alpha=0.125))))
+            else:
+                o = b.unary(k, cur)
+            # bring the scale back with a requantising 1x1-free op: QUANTIZE keeps everything on the NPU
+            cur = b.fm(shp, dtype, scale=1.0 / 16, zp=b.t(x).zps[0])
+            b.net.ops.append(Op("QUANTIZE", [o], [cur], ("QuantizeOptions", {})))
+        return b.finish([cur])
+    if pattern == "deep_slices":
+        c = rng.choice([128, 192, 256, 320])
+        x = b.input([1, rng.choice([4, 8]), rng.choice([4, 8]), c])
+        cur = x
+        for _ in range(rng.randint(2, 4)):
+            cur = b.conv(cur, rng.choice([c, 256, 144, 272]), rng.choice([(1, 1), (1, 1), (3, 3)]), (1, 1), (1, 1), "SAME")
+        return b.finish([cur])
+    if pattern == "fc1_after_conv":
+        c = rng.choice([32, 64, 128])
+        x = b.input([1, rng.choice([4, 6, 8]), rng.choice([4, 8]), c])
+        y = b.conv(x, rng.choice([64, 128, 256]), (3, 3), (1, 1), (1, 1), "SAME")
+        if rng.random() < 0.5:
+            y = b.conv(y, rng.choice([64, 128]), (1, 1), (1, 1), (1, 1), "SAME")
+        yt = b.t(y)
+        flat = b.reshape(y, [1, yt.shape[1] * yt.shape[2] * yt.shape[3]])
+        z = b.fc(flat, rng.choice([1, 1, 2, 3, 10]))
+        return b.finish([z])
+    if pattern == "nobias":
+        x = b.input([rng.choice([1, 1, 2]), rng.randint(4, 12), rng.randint(4, 12), rng.choice([3, 8, 16])])
+        s = rng.choice([1, 1, 2, 4])
+        y = b.conv(x, rng.choice([4, 8]), (3, 3), (s, s), (1, 1), rng.choice(["SAME", "VALID"]), bias=False)
+        if y is None:
+            y = b.unary("RELU", x)
+        if rng.random() < 0.5:
+            y2 = b.conv(y, 8, (1, 1), (1, 1), (1, 1), "SAME", bias=rng.random() < 0.5)
+            y = y2 if y2 is not None else y
+        return b.finish([y])
+    if pattern == "casc_s2_valid":
+        w = rng.choice([32, 48, 64, 63, 65])
+        h = rng.choice([33, 40, 41, 48, 64])
+        c = rng.choice([16, 32])
+        x = b.input([1, h, w, c])
+        y = b.conv(x, c, (3, 3), (1, 1), (1, 1), "SAME")
+        y = b.conv(y, c, rng.choice([(3, 3), (2, 2), (1, 1), (5, 5)]), (2, 2), (1, 1), rng.choice(["VALID", "VALID", "SAME"]))
+        y = b.conv(y, c, (3, 3), (1, 1), (1, 1), rng.choice(["SAME", "VALID"]))
+        return b.finish([y])
+    if pattern == "two_npu_islands":
+        shp = [1, rng.randint(4, 16), rng.randint(4, 16), rng.choice([8, 16])]
+        x = b.input(shp)
+        a = b.conv(x, shp[3], (3, 3), (1, 1), (1, 1), "SAME")
+        a2 = b.unary("RELU", a)
+        c = b.cpu_op(a2, "custom")
+        d = b.conv(c, shp[3], (1, 1), (1, 1), (1, 1), "SAME")
+        e = b.binary("ADD", d, a2)          # a2 crosses the CPU island: long live range
+        f = b.cpu_op(e, rng.choice(["custom", "sin_like"]))
+        g = b.binary("MUL", f, d)
+        return b.finish([g])
+    if pattern == "concat_slices":
+        c = rng.choice([8, 16, 24])
+        x = b.input([1, rng.randint(4, 12), rng.randint(4, 12), c])
+        p1 = b.conv(x, rng.choice([8, 16]), (1, 1), (1, 1), (1, 1), "SAME")
+        p2 = b.conv(x, rng.choice([8, 16, 24]), (3, 3), (1, 1), (1, 1), "SAME")
+        p3 = b.pool(x, "MAX_POOL_2D", (3, 3), (1, 1), "SAME")
+        cat = b.concat([p1, p2, p3], 3)
+        y = b.conv(cat, 16, (1, 1), (1, 1), (1, 1), "SAME")
+        return b.finish([y])
+    if pattern == "shared_weights":
+        c = rng.choice([8, 16])
+        x = b.input([1, 8, 8, c])
+        y = b.conv(x, c, (3, 3), (1, 1), (1, 1), "SAME", per_channel=False)
+        # second convolution re-uses the first one's weight and bias tensors
+        first = b.net.ops[-1]
+        z = b.fm(b.t(y).shape, dtype)
+        b.net.ops.append(Op("CONV_2D", [y, first.inputs[1], first.inputs[2]], [z], first.opts))
+        return b.finish([z])
+    if pattern == "big_fm_u65":
+        c = rng.choice([16, 32])
+        x = b.input([1, rng.choice([64, 96, 128]), rng.choice([64, 96]), c])
+        y = b.conv(x, c, (3, 3), (1, 1), (1, 1), "SAME")
+        z = b.conv(y, c, (3, 3), (1, 1), (1, 1), "SAME")
+        w = b.binary("ADD", z, y)
+        return b.finish([w])
+    if pattern == "avgpool_chain":
+        x = b.input([1, rng.randint(6, 20), rng.randint(6, 20), rng.choice([4, 8, 16])])
+        y = b.pool(x, "AVERAGE_POOL_2D", (3, 3), (1, 1), "SAME")
+        y = b.pool(y, "AVERAGE_POOL_2D", (2, 2), (2, 2), "VALID")
+        y = b.unary("RELU6", y)
+        return b.finish([y])
+    # minmax_lrelu
+    shp = [1, rng.randint(2, 10), rng.randint(2, 10), rng.choice([4, 16])]
+    x, x2 = b.input(shp), b.input(shp)
+    y = b.binary("MAXIMUM", x, x2)
+    y = b.unary("LEAKY_RELU", y)
+    y = b.binary("MINIMUM", y, x)
+    return b.finish([y])
